@@ -639,7 +639,164 @@ func c10Check(ci any, o *core.Obs) {
 	}
 	// (3) totality and (4) side-effect freedom on the well-formed path
 	c10Methods(o, data)
+	c10Join(o, data)
 	checkGlobals(o)
+}
+
+// c10Join joins and appends hand-encoded argument paths to the built path: the argument must stay
+// bit-identical (also its spare capacity), the result must be well-formed and trace "the commands of q
+// executed on p" (Join: the first sub-path of q continues the last one of p when q starts where p ends
+// and p is open, a Close then returns to the start of that sub-path of p; otherwise, and for Append,
+// the sub-paths of q follow those of p).
+func c10Join(o *core.Obs, data []float64) {
+	if len(data) < 4 || len(data) > 4000 {
+		return
+	}
+	for _, v := range data {
+		if math.IsNaN(v) || math.IsInf(v, 0) || math.Abs(v) > 1e6 {
+			return
+		}
+	}
+	subsP, err := geom.Decode(data)
+	if err != nil || len(subsP) == 0 {
+		return
+	}
+	pClosed := data[len(data)-1] == 32
+	e := Pt{data[len(data)-3], data[len(data)-2]}
+	mv := func(p Pt) []float64 { return []float64{1, p.X, p.Y, 1} }
+	ln := func(p Pt) []float64 { return []float64{2, p.X, p.Y, 2} }
+	qd := func(c, p Pt) []float64 { return []float64{4, c.X, c.Y, p.X, p.Y, 4} }
+	cl := func(p Pt) []float64 { return []float64{32, p.X, p.Y, 32} }
+	cat := func(rs ...[]float64) (d []float64) {
+		for _, r := range rs {
+			d = append(d, r...)
+		}
+		return d
+	}
+	at := func(b Pt, dx, dy float64) Pt { return Pt{b.X + dx, b.Y + dy} }
+	f := at(e, 1.5, -2.5)
+	args := []struct {
+		name string
+		d    []float64
+	}{
+		{"closed polygon starting at the end of p, and a second sub-path", cat(mv(e), ln(at(e, 3, 4)), ln(at(e, -2, 5)), cl(e), mv(at(e, 10, 10)), ln(at(e, 12, 10)), ln(at(e, 12, 13)), cl(at(e, 10, 10)))},
+		{"closed curve starting at the end of p", cat(mv(e), qd(at(e, 3, 4), at(e, 6, 0)), ln(at(e, 3, -3)), cl(e))},
+		{"open polyline starting at the end of p, then a closed sub-path", cat(mv(e), ln(at(e, 3, 4)), qd(at(e, 5, 5), at(e, 7, 2)), mv(at(e, 1, 1)), ln(at(e, 2, 1)), ln(at(e, 2, 3)), cl(at(e, 1, 1)))},
+		{"closed polygon starting elsewhere", cat(mv(f), ln(at(f, 3, 4)), ln(at(f, -2, 5)), cl(f))},
+	}
+	for _, a := range args {
+		subsQ, err := geom.Decode(a.d)
+		if err != nil {
+			o.Fail("harness:c10Join", "argument %q does not decode: %v", a.name, err)
+			return
+		}
+		for _, op := range []string{"Join", "Append"} {
+			p, _ := tailedPath(data)
+			q, qbuf := tailedPath(a.d)
+			var res *canvas.Path
+			entry := "Path." + op
+			if o.Guard(entry, func() {
+				if op == "Join" {
+					res = p.Join(q)
+				} else {
+					res = p.Append(q)
+				}
+			}) {
+				o.Fail("panic:"+entry, "%s panicked at %s: %s; p = %s, q = %s", entry, o.PanicSite, trunc200(o.PanicVal), dstr(data), dstr(a.d))
+				o.PanicVal = ""
+				continue
+			}
+			o.Decided(1)
+			o.Count("join_calls", 1)
+			if !tailIntact(qbuf, a.d) {
+				o.Fail("side-effect-arg:"+op, "%s modified its argument (%s): %s became %s; p = %s", entry, a.name, dstr(a.d), dstr(qbuf[:len(a.d)]), dstr(data))
+				continue
+			}
+			if res == nil {
+				o.Fail("join:nil", "%s returned nil", entry)
+				continue
+			}
+			rd := append([]float64(nil), res.Data()...)
+			if err := validateData(rd); err != nil {
+				o.Fail("join:malformed", "%s of %s and %s (%s) is not well-formed: %v; result %s", entry, dstr(data), dstr(a.d), a.name, err, dstr(rd))
+				continue
+			}
+			got, err := geom.Decode(rd)
+			if err != nil {
+				o.Fail("join:malformed", "%s result does not decode: %v", entry, err)
+				continue
+			}
+			// expected geometry
+			var want []geom.Sub
+			if op == "Join" && !pClosed && subsQ[0].Start == e {
+				want = append(want, subsP[:len(subsP)-1]...)
+				last := subsP[len(subsP)-1]
+				m := geom.Sub{Start: last.Start, Segs: append([]geom.Seg(nil), last.Segs...)}
+				for _, sg := range subsQ[0].Segs {
+					if !sg.FromClose {
+						m.Segs = append(m.Segs, sg)
+					}
+				}
+				if subsQ[0].Closed {
+					if end := m.End(); end != m.Start {
+						m.Segs = append(m.Segs, geom.Seg{Kind: geom.Line, P0: end, P3: m.Start, FromClose: true})
+					}
+					m.Closed = true
+				}
+				want = append(want, m)
+				want = append(want, subsQ[1:]...)
+			} else {
+				want = append(append(want, subsP...), subsQ...)
+			}
+			// Join and Append copy records: the result is compared record by record, exactly. The first
+			// command of q goes through the builder when it continues p, which may merge it with a
+			// collinear last line of p (mergeAt).
+			mergeAt := -1
+			if op == "Join" && !pClosed && subsQ[0].Start == e {
+				mergeAt = len(nonEmptySubs(append([]geom.Sub(nil), subsP[:len(subsP)-1]...)))
+			}
+			want, got = nonEmptySubs(want), nonEmptySubs(got) // a MoveTo without segments traces nothing
+			if msg := c10SameSubs(want, got, mergeAt, len(subsP[len(subsP)-1].Segs)); msg != "" {
+				o.Fail("join:geometry", "%s (%s): %s; result %s; p = %s", entry, a.name, msg, dstr(rd), dstr(data))
+			}
+		}
+	}
+}
+
+func c10SegEq(a, b geom.Seg) bool {
+	return a.Kind == b.Kind && a.P0 == b.P0 && a.P3 == b.P3 && a.C1 == b.C1 && a.C2 == b.C2 && a.Rx == b.Rx && a.Ry == b.Ry && a.Phi == b.Phi && a.Large == b.Large && a.Sweep == b.Sweep && a.FromClose == b.FromClose
+}
+
+// c10SameSubs compares decoded sub-paths exactly; in sub-path mergeAt the lines want[j-1], want[j] may
+// have become one line when they are collinear and point the same way.
+func c10SameSubs(want, got []geom.Sub, mergeAt, j int) string {
+	if len(want) != len(got) {
+		return fmt.Sprintf("%d sub-paths, expected %d", len(got), len(want))
+	}
+	for i := range want {
+		w, g := want[i], got[i]
+		if w.Start != g.Start || w.Closed != g.Closed {
+			return fmt.Sprintf("sub-path %d starts at %v closed=%v, expected %v closed=%v", i, g.Start, g.Closed, w.Start, w.Closed)
+		}
+		ws := w.Segs
+		if i == mergeAt && len(g.Segs) == len(ws)-1 && j >= 1 && j < len(ws) && ws[j-1].Kind == geom.Line && ws[j].Kind == geom.Line && !ws[j-1].FromClose && !ws[j].FromClose {
+			u, v := ws[j-1].P3.Sub(ws[j-1].P0), ws[j].P3.Sub(ws[j].P0)
+			if math.Abs(u.Cross(v)) <= 1e-6*u.Len()*v.Len() && u.Dot(v) > 0 {
+				m := ws[j-1]
+				m.P3 = ws[j].P3
+				ws = append(append(append([]geom.Seg(nil), ws[:j-1]...), m), ws[j+1:]...)
+			}
+		}
+		if len(ws) != len(g.Segs) {
+			return fmt.Sprintf("sub-path %d has %d segments, expected %d", i, len(g.Segs), len(ws))
+		}
+		for k := range ws {
+			if !c10SegEq(ws[k], g.Segs[k]) {
+				return fmt.Sprintf("segment %d of sub-path %d is %+v, expected %+v", k, i, g.Segs[k], ws[k])
+			}
+		}
+	}
+	return ""
 }
 
 func trimData(d []float64) []float64 {
